@@ -8,6 +8,7 @@ ALLOWEDLATENESS = 0 here; late updates are C02.  Aggregation of an emitted batch
 -/
 import SsqlVerif.Proofs.TumblingHist
 import SsqlVerif.Proofs.TumblingPT
+import SsqlVerif.Proofs.TumblingLateConserve
 import SsqlVerif.Generated.Facts
 set_option autoImplicit false
 
@@ -111,6 +112,24 @@ theorem processing_time_exactly_once (s : TW) (ops : List PtOp) (x : Row) (hg : 
       = s.data.count x + (ops.filterMap (fun o => match o with | .add r => some r | .tick => none)).count x :=
   ptRun_conserve s ops x hg hok
 
+/-- **Exactly once, any ALLOWEDLATENESS.** For every row value `x`, in every reachable state: occurrences still buffered
+plus occurrences reported by FIRST firings equal the number of times `x` was accepted.  Late re-deliveries repeat the
+rows of their interval and are not counted; neither a late update nor the purge that ends an allowance
+(`closeExpiredWindows`) removes a buffered row — no buffered row ever lies inside a triggered window. -/
+theorem exactly_once_counting_any_lateness (size ooo lateness : Int) (hs : 0 < size) (ops : List Op) (hok : OpsOk ops) (x : Row) :
+    (run (init size ooo lateness) ops).1.data.count x + (firstRowsOf (run (init size ooo lateness) ops).2).count x
+      = (acceptedRows (init size ooo lateness) ops).count x := by
+  have := run_conserve_late (init size ooo lateness) ops [] x (good_init size ooo lateness hs)
+    (goodF_init size ooo lateness) hok
+  simpa [init] using this
+
+/-- … in particular the purge at the end of an allowance keeps every buffered row, in every reachable state -/
+theorem purge_keeps_pending_rows (size ooo lateness : Int) (hs : 0 < size) (ops : List Op) (hok : OpsOk ops) (w : Int) :
+    (closeExpired (run (init size ooo lateness) ops).1 w).data = (run (init size ooo lateness) ops).1.data := by
+  have hg := good_run (init size ooo lateness) ops (good_init size ooo lateness hs) hok
+  have hf := goodF_run (init size ooo lateness) ops [] (good_init size ooo lateness hs) (goodF_init size ooo lateness) hok
+  exact closeExpired_data _ w _ hg hf
+
 /-! constants the model takes from the code (regenerated from /repo on every run) -/
 theorem facts_watermark : Facts.window_maxFutureSlack = 86400000000000 := by decide
 
@@ -123,5 +142,16 @@ example : OpsOk demoOps := by unfold OpsOk; decide
 example : ((run (init 1000 2000 0) demoOps).2.map (fun e => (e.start, e.rows.map (·.id))))
     = [(9000, [2]), (10000, [1, 3])] := by decide
 example : (run (init 1000 2000 0) demoOps).1.doneW = some 18000 := by decide
+
+/-! ### non-vacuity with ALLOWEDLATENESS > 0: a row exactly on a boundary survives the purge that ends the allowance of the
+interval before it (size 1000, ALLOWEDLATENESS 200: [0,1000) fires at watermark 1000 and is purged at 1300) -/
+def lateOps : List Op :=
+  [.add ⟨1, 100⟩ 1000000, .add ⟨2, 1000⟩ 1000000, .pop, .iter, .pop, .iter, .iter, .add ⟨3, 1300⟩ 1000000, .pop, .iter,
+   .add ⟨4, 2100⟩ 1000000, .pop, .iter, .iter, .iter]
+example : OpsOk lateOps := by unfold OpsOk; decide
+-- after the purge (first ten ops): nothing is registered any more, rows 2 and 3 are still buffered
+example : (run (init 1000 0 200) (lateOps.take 10)).1.fired = [] := by decide
+example : (run (init 1000 0 200) (lateOps.take 10)).1.data.map (·.id) = [2, 3] := by decide
+example : (run (init 1000 0 200) lateOps).2.map (fun e => (e.start, e.rows.map (·.id))) = [(0, [1]), (1000, [2, 3])] := by decide
 
 end C01
